@@ -330,13 +330,21 @@ class TokSim(core.Engine):
         if knobs['attached']:
             yield dict(trace, knobs=dict(knobs, attached=False, before=[], after=[]))
         # shorten string values
+        # Only free-text values are shortened, and never by removing a CR or LF: a shrunk lexeme or a lone CR
+        # would leave the token type's domain and the replay would then "fail" on any tree.
+        free_text = knobs['cls'] in ('EscapedString', 'BlockComment', 'InlineComment')
+
         def shorter(v):
-            if isinstance(v, str) and len(v) > 1:
+            if free_text and isinstance(v, str) and len(v) > 1:
                 for i in range(len(v)):
-                    yield v[:i] + v[i + 1:]
-        for cand in shorter(trace['init']['v']):
-            yield dict(trace, init=dict(trace['init'], v=cand))
+                    if v[i] not in '\r\n' and not (knobs['cls'] == 'InlineComment' and i == 0 and v[1:2] == ' '):
+                        yield v[:i] + v[i + 1:]
+        if trace['init']['how'] == 'value':
+            for cand in shorter(trace['init']['v']):
+                yield dict(trace, init=dict(trace['init'], v=cand))
         for i, op in enumerate(trace['ops']):
+            if op['op'] != 'value':
+                continue
             for cand in shorter(op['v']):
                 ops = list(trace['ops'])
                 ops[i] = dict(op, v=cand)
